@@ -343,6 +343,38 @@ pub fn c11_specs(tier: Tier) -> Vec<Spec> {
         let sp = if is_b { sp.with_bsub("s", body.as_bytes()) } else { sp.with_sub("s", body) };
         specs.push(sp.with_sub("t", "(?&s)(?-u:\\xA9)|y"));
     }
+    // flags written inside an INTERMEDIATE subpattern, in front of or around its reference to another
+    // subpattern: the referenced text keeps its own Unicode mode (and sees the case / dot flags of the
+    // place it is included in); chains of two and three levels, str and byte-string links in every mix
+    {
+        let bodies = [".", "[^a]", "\\w", "(?i)k", "é", "\\s", "[a-zé]", "\\d", "k"];
+        let mids = ["(?-u)x(?&s)", "(?-u:x(?&s))", "(?-u:(?&s))y", "(?-u)[a-z](?&s)", "(?&s)(?-u:-(?&s))", "(?i)(?&s)", "(?s)(?&s)", "(?s-u)(?&s)", "(?x) (?&s) y", "(?U)(?&s)+", "(?-u:(?u:(?&s)))", "(?u)(?&s)", "(?i-u:k(?&s))", "(?-u)(?&s)|(?u)(?&s)x"];
+        let users = ["(?&t)", "<(?&t)>", "(?&t)+z"];
+        for (bi, b) in bodies.iter().enumerate() {
+            for (mi, m) in mids.iter().enumerate() {
+                for (ui, u) in users.iter().enumerate() {
+                    if tier != Tier::Thorough && (bi + mi + ui) % 2 == 1 && ui != 1 {
+                        continue;
+                    }
+                    for utf8 in [true, false] {
+                        specs.push(Spec::new(utf8, vec![Pat::regex(u)]).with_sub("s", b).with_sub("t", m));
+                    }
+                    // byte-string links: the middle one, the inner one, both
+                    specs.push(Spec::new(false, vec![Pat::regex(u)]).with_sub("s", b).with_bsub("t", m.as_bytes()));
+                    if b.is_ascii() {
+                        specs.push(Spec::new(false, vec![Pat::regex(u)]).with_bsub("s", b.as_bytes()).with_sub("t", m));
+                        specs.push(Spec::new(false, vec![Pat::bregex(u.as_bytes())]).with_bsub("s", b.as_bytes()).with_bsub("t", m.as_bytes()));
+                    }
+                }
+                // three levels: the flag sits in the middle of the chain
+                if tier == Tier::Thorough || (bi + mi) % 3 == 0 {
+                    specs.push(Spec::new(true, vec![Pat::regex("(?&w)")]).with_sub("s", b).with_sub("t", m).with_sub("w", "(?&t)=(?&t)"));
+                    specs.push(Spec::new(false, vec![Pat::regex("(?&w)")]).with_sub("s", b).with_sub("t", m).with_sub("w", "(?&t)=(?&t)"));
+                    specs.push(Spec::new(true, vec![Pat::skip("(?&w)+"), Pat::token("0")]).with_sub("s", b).with_sub("t", m).with_sub("w", "(?-u:,)(?&t)"));
+                }
+            }
+        }
+    }
     // byte-string subpatterns
     for (body, user) in [(&b"\xff"[..], "a(?&s)"), (b"[\x80-\xbf]", "(?&s)+"), (b"a|\xfe", "x(?&s)y"), (b".", "(?&s)z")] {
         specs.push(Spec::new(false, vec![Pat::regex(user)]).with_bsub("s", body));
